@@ -53,6 +53,20 @@ pub struct PropRun<'a> {
     pub stream: u64,
 }
 
+/// Wall budget of one generated-search part: once it is exhausted the remaining cases are not
+/// evaluated (they are counted as inconclusive "budget exhausted"), so that a tree on which
+/// every case is slow (e.g. every child hangs) cannot keep a check running for hours.
+pub fn part_budget(ctx: &Ctx) -> std::time::Duration {
+    let secs = std::env::var("ZV_PART_BUDGET_S")
+        .ok()
+        .and_then(|s| s.parse().ok())
+        .unwrap_or(match ctx.tier {
+            Tier::Quick => 900,
+            Tier::Thorough => 5400,
+        });
+    std::time::Duration::from_secs(secs)
+}
+
 fn worker<T, S, F>(
     pr: &PropRun,
     cases: u32,
@@ -68,7 +82,19 @@ where
     let part = RefCell::new(Part::new(pr.engine, pr.rule));
     let failed = RefCell::new(false);
     let mut runner = TestRunner::new(proptest_config(cases, seed, pr.max_shrink_iters));
+    let started = std::time::Instant::now();
+    let budget = part_budget(pr.ctx);
     let result = runner.run(&strategy, |case| {
+        if started.elapsed() > budget {
+            if !*failed.borrow() {
+                let mut p = part.borrow_mut();
+                p.evaluations += 1;
+                p.inconclusive("part budget exhausted: case not evaluated");
+                return Ok(());
+            }
+            // during shrinking: stop exploring further candidates
+            return Ok(());
+        }
         let r = eval(&case);
         if !*failed.borrow() {
             let mut p = part.borrow_mut();
